@@ -8,7 +8,7 @@ from props.c01 import themed_case
 
 class P(EngProp):
     id = "C08"
-    rule = ("a record set in time order (timestamps unique, a third of the cases with exact duplicate records: same timestamp, line and attributes) and a query whose stages add (json/logfmt/label_format), remove (drop/keep) or "
+    rule = ("a record set in time order (timestamps unique, a third of the cases with exact duplicate records: same timestamp, line and attributes; a fifth delivered out of time order, unlimited evaluations only) and a query whose stages add (json/logfmt/label_format), remove (drop/keep) or "
             "rewrite labels, incl. label values containing quote, backslash, comma, equals sign, newline and values that imitate the rendering of other labels; evaluated with "
             "limits {-5, -1, 0, 1, 2, N-1, N, N+1, 100} on the real engine. Checked on the observed results: no two streams share a label set, every stream non-empty and sorted, "
             "labels sorted; the limit-L result is the first min(L,N) entries in time order of the unlimited one; non-positive limits return all; total entries = N; and each "
@@ -21,7 +21,9 @@ class P(EngProp):
         g = EGen(rng)
         cases = []
         for i in range(n):
-            if i % 4 == 0:
+            if i % 8 == 5:
+                recs, orc, sel, pipe, theme = self.fewstreams_case(rng, g)
+            elif i % 4 == 0:
                 recs, orc, sel, pipe, theme = self.quoting_case(rng, g)
             else:
                 recs, orc, sel, pipe, theme = themed_case(rng, g, tier)
@@ -39,6 +41,14 @@ class P(EngProp):
             qc = g.query_coq(sel, pipe)
             N = len(recs)
             lims = [0, -1, 1, 2, rng.choice([-5, 100]), max(N - 1, 1), max(N, 1), N + 1]
+            if (i % 5 == 2 or theme == "fewstreams") and N >= 3 and not any(s["k"] == "distinct" for s in pipe):
+                # a storage that delivers out of time order (late records in the middle and at the end): every stream must still come
+                # back sorted; "first L" is then a matter of delivery order, so only the unlimited evaluations are made
+                for _ in range(rng.randint(1, 2)):
+                    a, b = rng.sample(range(N), 2)
+                    recs[a], recs[b] = recs[b], recs[a]
+                lims = [0, -1, rng.choice([-5, 0])]
+                theme += "+unordered"
             caps = rand_caps(rng)
             evals = [{"q": b64e(q), "qcoq": qc, "label": caps[0], "line": caps[1], "limit": L} for L in lims]
             rels = ["RelSpec 0"]
@@ -47,6 +57,16 @@ class P(EngProp):
             cases.append({"kind": theme, "recs": [g.rec_json(r) for r in recs], "oracle": orc, "evals": evals, "rels": rels,
                           "stages": [s["k"] for s in pipe], "note": "limits %r" % (lims,)})
         return cases
+
+    def fewstreams_case(self, rng, g):
+        """one or two label sets over many records (the line label is dropped), so that streams hold several entries"""
+        n = rng.randint(4, 9)
+        recs = g.records([rng.choice(["l1", "l2", "l3", "l4"]) for _ in range(n)], with_attrs=False)
+        for r in recs:
+            r["res"] = [("job", "x")]
+            r["attrs"] = [("src", rng.choice(["a", "a", "b"]))]
+        pipe = [g.st_dropkeep("drop", ["msg"], [])]
+        return recs, oracles_coq(), g.selector(extra=False), pipe, "fewstreams"
 
     def quoting_case(self, rng, g):
         """label values that are sensitive to how the grouping key is rendered"""
